@@ -354,7 +354,21 @@ func runC03(c *Ctx) {
 			case mut == "clearHavePtr":
 				r.Check("C03.lock-preconditions", site+"/only in invalidate", m.Pos(u.Pos()), fn == inval, "only invalidate clears havePtr")
 			case mut == "addExtra":
-				// always allowed
+				// parking an increment in extra is safe only if somebody is bound to flush it: we
+				// hold a reader lock ourselves (we flush on release), or the version of the state
+				// the CAS compares against is exclusively locked (the holder flushes before
+				// unlocking), or it has readers but no pointer (the last reader upgrades and flushes)
+				readerHeld := hasFact(factsAt(u), func(f Fact) bool {
+					cl, ok := f.Cond.(*ssa.Call)
+					if !ok || !f.Pol || calleeName(&cl.Call) != csRecv+"update" {
+						return false
+					}
+					_, ms := rootLoad(cl.Call.Args[2])
+					return len(ms) == 1 && ms[0] == "incReader"
+				})
+				if !readerHeld {
+					want = bOr{[]BExpr{bBool{"locked"}, bAnd{[]BExpr{bNot{bBool{"havePtr"}}, mkOrd("readers", ">", "0")}}}}
+				}
 			default:
 				r.Check("C03.lock-preconditions", site+"/unknown mutation", m.Pos(u.Pos()), false, "unrecognised state mutation "+mut)
 			}
@@ -598,6 +612,8 @@ func c03Saturation(c *Ctx, m *Module) {
 		r.Check("C03.saturation", "addExtra/sticks at maxExtra on overflow", m.Pos(phi.Pos()), okA, "x' = maxExtra iff x+n wraps or exceeds maxExtra, else x+n; "+why)
 	}
 	r.Check("C03.saturation", "addExtra/has the saturating choice", m.Pos(ae.Pos()), okA, "expected a choice between maxExtra and x+n")
+	// the persisted value sticks at 2^64-1 too, on every attempt of the CAS loop
+	c04ValueAdd(c, m, "C03.saturation")
 }
 
 func c03Swap(c *Ctx, m *Module) {
